@@ -12,7 +12,7 @@
    statement waits in SQLite's busy handler and is retried; it is never turned into an error by
    the 5 s busy timeout. *)
 From Coq Require Import List Bool Arith.
-From PV Require Import Lib.Lock Model.C02_conc Proofs.C02_conc.
+From PV Require Import Lib.Lock Model.C02_conc Proofs.C02_conc Proofs.C02_live.
 Import ListNotations.
 
 (* Safety, for ANY well-moded program, ANY database that is not garbage (fresh/empty, existing,
@@ -105,6 +105,47 @@ Theorem C02_busy_only_on_upgrade mine others op :
   acquire mine others op = Busy -> mine = Sh /\ exists intx, op = LWrite intx.
 Proof. exact (busy_only_on_upgrade mine others op). Qed.
 Print Assumptions C02_busy_only_on_upgrade.
+
+(* mutual exclusion lifted to whole configurations: for ANY program, any initial file (also garbage),
+   any calls and any schedule, at most one connection per database file holds RESERVED or more *)
+Theorem C02_mutex (p : prog) (d0 : option db) (pars : list params) (sched : list nat) :
+  mutex (fst (run sched (init_cfg p d0 pars))).
+Proof. exact (mutex_reachable p d0 pars sched). Qed.
+Print Assumptions C02_mutex.
+
+(* deadlock freedom and termination for well-moded programs on a database that is not garbage, in
+   every reachable configuration c:  (1) if some call is still running, some call's next attempt is
+   neither blocked nor idle (no cyclic wait: a SHARED holder never waits - its reads and its commit are
+   granted and its write fails at once -, a writer waits only at COMMIT and only for SHARED holders, a
+   call that holds nothing waits only for lock holders);  (2) a schedule of at most Mu(c) attempts exists
+   after which no call is running;  (3) along ANY continuation the attempts that are neither blocked nor
+   idle number at most Mu(c) = total remaining program length.  Fairness needed to conclude that all
+   calls finish: while a call is unfinished the scheduler eventually picks a call that can progress.
+   Waiting TIME (SQLite's busy timeout) is not modelled. *)
+Theorem C02_no_deadlock (p : prog) (d0 : db) (pars : list params) (sched : list nat) :
+  side_ok p = true ->
+  let c := fst (run sched (init_cfg p (Some d0) pars)) in
+  ((exists i t, nth_error (c_thrs c) i = Some t /\ t_st t = Run) -> exists tid, can_progress c tid) /\
+  (exists more, length more <= Mu (c_thrs c) /\
+                forall t, In t (c_thrs (fst (run more c))) -> t_st t <> Run) /\
+  (forall more, Mu (c_thrs (fst (run more c))) + progress_count (snd (run more c)) <= Mu (c_thrs c)).
+Proof. exact (no_deadlock p d0 pars sched). Qed.
+Print Assumptions C02_no_deadlock.
+
+(* the layout-knowledge side condition sch_ok (Model/C02_conc.v): a DROP TABLE must be guarded by a layout
+   read inside the same write transaction.  HEAD satisfies it; the seeded change C02/m1 (lock-free layout
+   read, BEGIN IMMEDIATE only around DROP+CREATE) is well-moded but is rejected by it, and in the model
+   its second caller drops the table - and the cached row - the first caller has just written *)
+Theorem C02_m1_rejected :
+  side_ok_full prog_head = true /\ side_ok prog_m1 = true /\ sch_ok prog_m1 = false /\
+  exists sched,
+    let c := fst (run sched (init_cfg prog_m1 (Some empty_db) [Par 0 true false true 30; Par 1 true false true 30])) in
+    map t_st (c_thrs c) = [Fin; Fin] /\ rows_of c = [1].
+Proof.
+  repeat split; try (vm_compute; reflexivity).
+  exists ([0;0;0;0; 1;1;1;1] ++ repeat 0 30 ++ repeat 1 30). vm_compute. auto.
+Qed.
+Print Assumptions C02_m1_rejected.
 
 (* non-vacuity: three calls (a miss, a hit with last-hit update, a syntax error) on a database with
    a wrong `models` layout, an interleaved schedule with blocked attempts, all finish *)
